@@ -22,6 +22,7 @@ Inductive fstep :=
 | FTag
 | FAlpha (e : nat) (w : N)                    (* alphaField: blank padded / cut, always fixed width *)
 | FNumeric (e : nat) (w : N)                  (* numericStringField: zero filled, right-most w kept *)
+| FAlphaZ (e : nat) (w : N)                   (* if 0 < len < w: numericStringField, else alphaField ({8200} element 01) *)
 | FRightAlpha (e : nat) (w : N)               (* parseAlphaField used as formatter: right-most w kept, blank padded *)
 | FOpt (e : nat) (w : N) (delim : bool) (star : bool)
                                               (* formatAlphaField(.., options) [+ Delimiter]; star: "*" -> "" *)
@@ -143,6 +144,10 @@ Fixpoint run_format (steps : list fstep) (v : tagval) (variable : bool) (acc : b
       | FTag => run_format rest v variable (acc ++ tv_marker v)
       | FAlpha e w => run_format rest v variable (acc ++ alpha_field (elem_val v e) (nn w))
       | FNumeric e w => run_format rest v variable (acc ++ numeric_string_field (elem_val v e) (nn w))
+      | FAlphaZ e w =>
+          let s := elem_val v e in
+          run_format rest v variable
+            (acc ++ if (0 <? length s) && (length s <? nn w) then numeric_string_field s (nn w) else alpha_field s (nn w))
       | FRightAlpha e w => run_format rest v variable (acc ++ parse_alpha_field (elem_val v e) (nn w))
       | FOpt e w delim star =>
           let o := format_alpha_field (elem_val v e) (nn w) variable in
